@@ -56,9 +56,9 @@ LEMMAS = [
     (r"GetVarint<R> as std::future::Future>::poll$", r"^call:index(_mut)?$", r"self\.buffer,Range(To)?\(",
      "type invariant of GetVarint: offset <= varint_size <= 8 (varint_size is only assigned 0 or parse_size(..) in {1,2,4,8})", "getvarint-invariant"),
     (r"GetVarint<R> as std::future::Future>::poll$", r"^Overflow\(Add\)$", r"self\.offset|^1,", "offset + read <= varint_size <= 8 (AsyncRead contract: read <= buf.len())", "getvarint-invariant"),
-    (r"GetBuffer<R> as std::future::Future>::poll$", r"^call:index_mut$", r"RangeFrom\(\*self\.offset\)", "loop guard offset < buffer.len()", None),
+    (r"GetBuffer<R> as std::future::Future>::poll$", r"^call:index_mut$", r"RangeFrom\(self\.offset\)", "loop guard offset < buffer.len()", None),
     (r"GetBuffer<R> as std::future::Future>::poll$", r"^Overflow\(Add\)$", r"self\.offset", "offset + read <= buffer.len() <= isize::MAX (AsyncRead contract: read <= buf.len())", None),
-    (r"GetBuffer<R> as std::future::Future>::poll$", r"^Overflow\(Sub\)$", r"len\(&\*\*self\.buffer\),\*self\.offset", "loop guard offset < buffer.len()", None),
+    (r"GetBuffer<R> as std::future::Future>::poll$", r"^Overflow\(Sub\)$", r"len\(self\.buffer\),self\.offset", "loop guard offset < buffer.len()", None),
     (r"(GetVarint|GetBuffer)<R> as std::future::Future>::poll$", r"^panic$", r"assertion failed|AssertKind", "debug-only statement of the AsyncRead contract (read <= buf.len(), first read in {0,1}) / of the state machine invariant", "debug-only"),
     (r"BufferReader as p::bytes::BytesReader>::get_varint$", r"^panic$", r"value <= VarInt::MAX", "debug-only: octets::get_varint masks the 2 length bits, result < 2^62", "debug-only"),
     (r"VarInt::from_u64_unchecked$", r"^panic$", r"value <= Self::MAX", "debug-only restatement of the unsafe precondition (call sites are obligations of rule C11-R4)", "debug-only"),
@@ -71,7 +71,7 @@ LEMMAS = [
     # --- frames / headers
     (r"Frame::new$", r"^panic$", r"payload.len\(\) <= VarInt::MAX", "payload.len() <= isize::MAX < 2^62 on 64-bit targets", None),
     (r"(Frame|StreamHeader)::new$", r"^panic$", r"is_id_exercise|is_empty|is_some|is_none", "debug-only constructor sanity checks: parse() yields Exercise only under is_id_exercise; session id present iff WebTransport", "debug-only"),
-    (r"(Frame|StreamHeader)::session_id::\{closure#0\}$", r"^call:expect$", r"self\.session_id", "invariant: kind==WebTransport => session_id is Some (all constructors: read paths and new_webtransport)", "wt-has-session-id"),
+    (r"(Frame|StreamHeader)::session_id::\{closure#0\}$", r"^call:expect$", r"self\.session_id", "invariant: kind==WebTransport => session_id ok (all constructors: read paths and new_webtransport)", "wt-has-session-id"),
     (r"SessionResponse::code$", r"^call:expect$", r"':status'|Status code", "SessionResponse is only built by with_status_code(StatusCode): ':status' is present and is the decimal form of a valid StatusCode", "response-ctor"),
     # --- buffer reader
     (r"BufferReader::buffer_remaining$", r"^call:index$", r"RangeFrom\(BufferReader::offset", "octets invariant off <= len", None),
@@ -79,7 +79,7 @@ LEMMAS = [
     (r"<&\[u8\] as p::bytes::r#async::AsyncRead>::poll_read$", r"^call:(index_mut|split_at)$", r"min\(", "amt = min(self.len(), buf.len())", None),
     (r"<&\[u8\] as p::bytes::r#async::AsyncRead>::poll_read$", r"^call:copy_from_slice$", r"", "both sides have length amt", None),
     # --- capsule
-    (r"CloseWebTransportSession::with_capsule$", r"^call:expect$", r"^<T as TryInto<U>>::try_into\(&\*<impl Index<I> for \[T\]>::index\([^()]*(\([^()]*\))*[^()]*,RangeTo\(4\)\)\),",
+    (r"CloseWebTransportSession::with_capsule$", r"^call:expect$", r"^<T as TryInto<U>>::try_into\(<impl Index<I> for \[T\]>::index\([^()]*(\([^()]*\))*[^()]*,RangeTo\(4\)\)\),",
      "the operand is `payload[..4]`: a slice produced by indexing with the constant range ..4 has length exactly 4 (the indexing itself is a separate obligation, discharged by the length guard)", None),
     # --- qpack
     (r"Decoder::decode$", r"^BoundsCheck$", r"buffer_remaining.*,0$", "loop guard capacity() > 0 and capacity == len(buffer_remaining())", None),
@@ -87,7 +87,7 @@ LEMMAS = [
     (r"Decoder::decode_integer$", r"^Overflow\(Sub\)$", r"^Shl\(1,N\),1$", "1 << N >= 2 for N >= 1", "const-generic-N"),
     (r"Decoder::decode_field_line_type$", r"^panic$", r"unreachable", "the five shifted-prefix tests cover all 256 byte values (checked exhaustively from the extracted table)", "field-line-table"),
     # --- driver datagram
-    (r"w::datagram::Datagram::read$", r"^Overflow\(Sub\)$", r"Bytes::len\(&quic_dgram\)", "suffix lemma (C03-R4)", None),
+    (r"w::datagram::Datagram::read$", r"^Overflow\(Sub\)$", r"Bytes::len\(quic_dgram\)", "suffix lemma (C03-R4)", None),
 ]
 
 
@@ -209,10 +209,10 @@ class Support:
             for e in p.events:
                 if e[0] == "store" and canon(e[1]).endswith("self.varint_size"):
                     stores.add(canon(e[2]))
-        okk = stores == {"VarInt::parse_size(*self.buffer[0])"}
+        okk = stores == {"VarInt::parse_size(self.buffer[0])"}
         g = self.A.fn("wtransport_proto::bytes::r#async::GetVarint::new")
         init = [path_sig(p)[1] for p in nonpanic(walk(g))]
-        ok2 = init == ["return GetVarint(&*reader,[0;8],0,0)"]
+        ok2 = init == ["return GetVarint(reader,[0;8],0,0)"]
         return okk and ok2, "varint_size is assigned only parse_size(buffer[0]) (%s) and initialised 0 with an 8-byte buffer (%s)" % (sorted(stores), init)
 
     def s_uni_h3_has_header(self, sid):
@@ -258,7 +258,7 @@ class Support:
                 sid_arg = canon(ev[2][-1])
                 if "WebTransport" in k and not sid_arg.startswith("Option::Some("):
                     bad.append(fn.path)
-                if k.startswith("some(") or k.startswith("ok("):
+                if k.startswith("ok(") or k.startswith("ok("):
                     # kind parsed from the wire: session id is Some exactly on the WebTransport branch
                     wt = any(a[0] == "is" and a[2] == "WebTransport" for a in atoms)
                     if wt != sid_arg.startswith("Option::Some("):
@@ -276,7 +276,7 @@ class Support:
     def s_get_bytes_exact(self, sid):
         f = self.A.fn("<&[u8] as wtransport_proto::bytes::BytesReader>::get_bytes")
         ls = sorted(path_sig(p)[1] for p in nonpanic(walk(f)))
-        ok1 = "return Option::Some(&*ok(<impl [T]>::get(&**self,RangeTo(len))))" in ls
+        ok1 = "return Option::Some(ok(<impl [T]>::get(self,RangeTo(len))))" in ls
         return ok1, "<&[u8]>::get_bytes(len) returns self.get(..len): exactly len bytes (octets::get_bytes(len) likewise by contract)"
 
     def s_const_generic_N(self, sid):
@@ -400,7 +400,7 @@ def sweep(ctx, rid, A, clo, sup, only=None):
                     pass
                 how = obligations.discharge_index(o, array_len=_array_len(fn, o), typeb=typeb)
             if how is None and o.kind in ("call:expect", "call:unwrap") and obligations.known_some(o.atoms, o.ops[0]):
-                how = "guard: the value is Some/Ok on every path reaching the call"
+                how = "guard: the value ok/Ok on every path reaching the call"
             if how is None and o.kind.startswith("Overflow(Sh") and isinstance(o.ops[1], tuple) and o.ops[1][0] == "cparam":
                 ns = const_instantiations(A, re.escape(fn.path.split("::")[-1]) + "$")
                 ns |= const_instantiations(A, r"Decoder::decode_string$") if "decode_integer" in fn.path else set()
@@ -559,7 +559,7 @@ def run(ctx):
     f = A.fn("wtransport_proto::qpack::Decoder::decode_integer")
     ps = walk(f)
     ovf = [p for p in ps if "IntegerOverflow" in path_sig(p)[1]]
-    ctx.check("C11-R5", "decode_integer overflow -> IntegerOverflow", bool(ovf) and any(any(re.search(r"checked_add\(.*\) is None$", a) for a in path_sig(p)[0]) for p in ovf),
+    ctx.check("C11-R5", "decode_integer overflow -> IntegerOverflow", bool(ovf) and any(any(re.search(r"checked_add\(.*\) fails$", a) for a in path_sig(p)[0]) for p in ovf),
               "decode_integer no longer maps checked_add overflow to DecodingError::IntegerOverflow", where(f))
     ctx.assume("O3: `payload_len as usize` truncates on 32-bit targets before the 4096 cap is applied; the analysis targets x86_64")
 
